@@ -1,7 +1,7 @@
 SPECIFICATION GSpec
 CONSTANTS
   Clients = {"X", "Y"}
-  Defs = {"A", "B", "R"}
+  Defs = {"A", "B", "R", "P"}
   MaxOps = 100
   Dev = {}
   Depth = 6
